@@ -860,9 +860,21 @@ C03Faults ==
                           FaultBase("header_size", "plus1", HeaderFor(Len(b) + 1), b, "any", <<>>),
                           FaultBase("header_size", "zero", HeaderFor(0), b, "any", <<>>)})
 
+(* an over-long unterminated string in place of a CString, the frame cut at every later boundary *)
+Splice(b, e, nb, upto) == SubSeq(b, 1, e.at) \o nb \o SubSeq(b, e.at + e.len + 1, upto)
+C03LongStrings ==
+    IF ~PlainBody THEN {}
+    ELSE LET b == Body
+             strs == {j \in 1..Len(ev) : ev[j].k = "CString"}
+             cuts(j) == {ev[k].at + ev[k].len : k \in j..Len(ev)} \cup {ev[k].at : k \in (j + 1)..Len(ev)}
+             firstRegion == IF regions = <<>> THEN Len(b) + 1 ELSE regions[1].from
+         IN UNION {UNION {{[FaultBase("long_string", ev[j].n, HeaderFor(Len(Splice(b, ev[j], Rep(65, n), cut))),
+                                      Splice(b, ev[j], Rep(65, n), cut), "any", <<>>) EXCEPT !.regions = <<>>] :
+                              cut \in {x \in cuts(j) : x < firstRegion}} : n \in {255, 256, 257}} : j \in strs}
+
 FaultsDue == phase = "done" /\ prof = 0 /\ FaultMode # "0" /\ (Len(out) + root.id) % FaultEvery = 0
 
-FaultSet == IF FaultMode = "c04" THEN C04EnumFaults \cup C04SizeFaults ELSE C03Faults
+FaultSet == IF FaultMode = "c04" THEN C04EnumFaults \cup C04SizeFaults ELSE C03Faults \cup C03LongStrings
 
 (* undefined opcodes: around every defined one and at the extremes, per context and direction *)
 OpInt(o, n) == IF n = 1 THEN o.op[1] ELSE o.op[1] + 256 * o.op[2]
@@ -880,7 +892,13 @@ OpFault(c, d, n) ==
              THEN <<0, IF d = "client" THEN 4 ELSE 2>> \o LE(n, IF d = "client" THEN 4 ELSE 2)
              ELSE LE(n, 1),
      body |-> <<>>, regions |-> <<>>, msgcomp |-> FALSE, outcome |-> "err_opcode", val |-> LE(n, 4)]
-OpFaults == UNION {UNION {{OpFault(c, d, n) : n \in UndefinedOps(c, d)} : d \in {"client", "server"}} : c \in Ctxs}
+(* a client header carries the opcode in 4 bytes: a defined opcode plus 2^16 / 2^24 is undefined too *)
+OpFaultWide(c, n, hi) ==
+    [OpFault(c, "client", n) EXCEPT !.hdr = <<0, 4>> \o LE(n, 2) \o hi, !.val = LE(n, 2) \o hi, !.site = "opcode_high_bytes"]
+OpFaults ==
+    UNION {UNION {{OpFault(c, d, n) : n \in UndefinedOps(c, d)} : d \in {"client", "server"}} : c \in Ctxs}
+    \cup UNION {{OpFaultWide(c, n, hi) : n \in DefinedOps(c, "client"), hi \in {<<1, 0>>, <<0, 1>>}} :
+                 c \in {cc \in Ctxs : cc.world}}
 
 ASSUME (FaultMode = "c04" /\ Shard = 0) =>
          \A f \in OpFaults : PrintT("REPLAY " \o ToJson(f))
